@@ -1213,6 +1213,53 @@ def parse_unit(path):
 _item_cache = {}
 
 
+
+def rule_R101(src, stats):
+    """statement `M.entry(K).or_insert(V);` (M a place path at the start of a statement, K and V any expressions)  ->
+    `{ let vx_ekN = K; let vx_evN = V; if !M.contains_key(&vx_ekN) { M.insert(vx_ekN, vx_evN); } }`
+    (exactly what `Entry::or_insert` does for a map: K and V are evaluated once, in the same order, and the pair is inserted only
+    when the key is absent; Verus has no model of the Entry API. DEFAULT rule: tried on every extracted function, a no-op unless
+    the statement form occurs, so that an edit introducing the Entry API is judged instead of leaving the unit undecided)"""
+    def close(i):
+        # index of the parenthesis closing the one at src[i]
+        d = 0
+        for j in range(i, len(src)):
+            if src[j] == "(":
+                d += 1
+            elif src[j] == ")":
+                d -= 1
+                if d == 0:
+                    return j
+        return -1
+    spans = []
+    for m in re.finditer(r"(?m)^(\s*)([A-Za-z_][\w\.]*)\s*\.\s*entry\s*\(", src):
+        ind, mp = m.groups()
+        o1 = m.end() - 1
+        c1 = close(o1)
+        if c1 < 0:
+            continue
+        m2 = re.match(r"\s*\.\s*or_insert\s*\(", src[c1 + 1:])
+        if not m2:
+            continue
+        o2 = c1 + 1 + m2.end() - 1
+        c2 = close(o2)
+        if c2 < 0:
+            continue
+        m3 = re.match(r"\s*;", src[c2 + 1:])
+        if not m3:
+            continue
+        n = stats.get("R101", 0) + 1
+        stats["R101"] = n
+        k, v = src[o1 + 1:c1], src[o2 + 1:c2]
+        spans.append((m.start(), c2 + 1 + m3.end(),
+                      "%s{ let vx_ek%d = %s; let vx_ev%d = %s; if !%s.contains_key(&vx_ek%d) { %s.insert(vx_ek%d, vx_ev%d); } }" % (ind, n, k, n, v, mp, n, mp, n, n)))
+    return _replace_spans(src, spans)
+
+
+RULES["R101"] = rule_R101
+RULE_DOC["R101"] = rule_R101.__doc__.strip()
+DEFAULT_RULES = ["R101"]
+
 def items_of(file):
     path = os.path.join(REPO_SRC, file)
     if path not in _item_cache:
@@ -1254,6 +1301,9 @@ def splice_fn(fs, stats, canary=False, stub=False):
             text = RULES[rid](text, stats)
         if text == before and not optional:
             stats.setdefault("warnings", []).append({"fn": fs.name, "kind": "rule", "what": "rule %s no longer applies to %s::%s" % (rid, fs.file, fs.name)})
+    for rid in DEFAULT_RULES:
+        if rid not in [r.rstrip("?").partition("@")[0] for r in rules]:
+            text = RULES[rid](text, stats)
     vis = fs.opts.get("vis", "pub")
     # --- visibility
     if vis == "pub":
